@@ -149,7 +149,9 @@ type unredactableEvent interface {
 
 func redactEventJSON[T unredactableEvent](eventJSON []byte, unredactableEvent T, eventTypeToKeepContentFields map[string][]string) ([]byte, error) {
 	// Unmarshalling into a struct will discard any extra fields from the event.
-	if err := json.Unmarshal(eventJSON, &unredactableEvent); err != nil {
+	// unredactableEvent already is a pointer: unmarshalling into its address would
+	// let the JSON text "null" set it to nil.
+	if err := json.Unmarshal(eventJSON, unredactableEvent); err != nil {
 		return nil, err
 	}
 	newContent := map[string]spec.RawJSON{}
